@@ -130,6 +130,18 @@ Example C09_nonvacuous_result :
   /\ out_of (construct cur ex_ct 4 None [(4, AStr 1)]) = Err TypeErr. (* "a" + 1 in the preparer *)
 Proof. vm_compute. repeat split. Qed.
 
+(* a subclass re-stating in its decorator the key it inherits changes nothing: the key stays
+   owned by the declaring class, its default_factory still counts *)
+Definition restate_ct : list cdesc :=
+  [ mkcdesc 2 [1] (Some (mkdeco (Some (Some 1)) None DncFalse)) [(2, TInt)] [(2, ELit (AInt 1))] [] false None;
+    mkcdesc 1 [] (Some (mkdeco (Some (Some 1)) None DncFalse)) [(1, TStr)]
+            [(1, EAttr (DFac (AStr 1)) true false)] [] false None ].
+Example C09_restated_key :
+  out_of (construct cur restate_ct 2 None []) = Ok (mkout [(1, AStr 1); (2, AInt 1)] [] [])
+  /\ owner (anc restate_ct 2) 1 = Some 1
+  /\ in_scope restate_ct 2 None [] = true.
+Proof. vm_compute. repeat split. Qed.
+
 (* the documented example (docsite usage/advanced.md, Subclassing): a hand-written parent
    constructor receives exactly the attributes it owns: Sub() == Sub(x=101, y=100, z=300) *)
 Definition doc_ct : list cdesc :=
@@ -273,6 +285,7 @@ Print Assumptions C09_post_init_at_most_once_any_hierarchy.
 Print Assumptions C09_resolve_meets_spec.
 Print Assumptions C09_nonvacuous_in_scope.
 Print Assumptions C09_nonvacuous_result.
+Print Assumptions C09_restated_key.
 Print Assumptions C09_documented_example.
 Print Assumptions C09_plain_parent_refuted.
 Print Assumptions C09_noninit_forwarded_refuted.
